@@ -225,6 +225,7 @@ BLOCKS = {
     'prog_counter_probe': ('program', 'R', '\\newcounter{qpcount}\\stepcounter{qpcount}D\\arabic{qpcount}.%(n)s\n'),
     'prog_newif': ('program', 'W', '\\ifqpflag T\\else F\\fi%(n)s.\n'),
     'prog_userdata': ('program', 'W', 'Userdata u%(n)s.\n'),
+    'lang_probe': ('language', 'R', 'Names \\figurename, \\tablename, \\contentsname, \\abstractname, \\today %(n)s.\n'),
     # conditionals: every argument form of the argument scanner's token types (Tok, XTok, Number, Dimen) on every exit path
     'ifx_macros_multi': ('switch', 'W', '\\def\\fxa{xy}\\def\\fxb{xy}\\ifx\\fxa\\fxb S\\else D\\fi%(n)s.\n'),
     'ifx_macros_single': ('switch', 'W', '\\def\\fxa{x}\\def\\fxb{y}\\ifx\\fxa\\fxb S\\else D\\fi%(n)s.\n'),
@@ -278,7 +279,13 @@ EXTRA_ARGV = {
     'localtoc': ['--localtoc-level', '1'],
     'extracss': ['--extra-css', 'extra.css'],
     'xml': ['--xml'],
+    'langterms': ['--lang-terms', 'myterms.xml'],        # a site file of language terms (written next to the job sources)
+    'sectemplate': ['--filename', 'index [$id, part$num(2)]'],
+    'badchars': ['--bad-filename-chars', ': #$^&*!~`"\'=?/{}[]()|<>;\\,'],
+    'logfile': ['--log'],
 }
+LANGTERMS = ('<languages>\n  <terms lang="en">\n    <term name="figure">Fig.</term>\n    <term name="table">Tab.</term>\n'
+             '    <term name="contents">Inhalt</term>\n  </terms>\n</languages>\n')
 BLOCK_IDS = sorted(b for b in BLOCKS if not b.endswith('_open'))
 OPENERS = sorted(b for b in BLOCKS if b.endswith('_open'))
 CONFLICTS = [('newif', 'newif_probe'), ('coltype_def', 'coltype_use')]
@@ -567,6 +574,8 @@ def history_job(args, fs):
     os.makedirs('sub', exist_ok=True)
     with open(os.path.join('sub', 'inc2.tex'), 'w') as f:
         f.write('nested include \\input{inc}\n')
+    with open('myterms.xml', 'w') as f:
+        f.write(LANGTERMS)
     os.makedirs('pk', exist_ok=True)
     for pkname, pksrc in sorted(LOCAL_PACKAGES.items()):
         with open(os.path.join('pk', pkname + '.py'), 'w') as f:
@@ -756,6 +765,15 @@ def enumerate_cases(base_seed, tier):
             out.append({'property': PID, 'seed': core.h64('C17-open', o, cut),
                         'swarm': {'scrub': False, 'base': 'minimal', 'exec_ref': False, 'hashseed': 1},
                         'ops': [dict(gjob(['textbf', o]), cut=cut), gjob(readers)]})
+    # every command-line extra (configuration reaches class-level state through ProcessOptions, term files, ...):
+    # a document processed with it, then the same document without it
+    probe_blocks = ['section', 'figure', 'table', 'lang_probe', 'ref', 'textbf', 'list_enum']
+    for x in sorted(EXTRA_ARGV):
+        for cls in (('article', 'book') if tier == 'thorough' else ('article',)):
+            a = dict(gjob(probe_blocks, cls=cls), extra=[x])
+            out.append({'property': PID, 'seed': core.h64('C17-extra', x, cls),
+                        'swarm': {'scrub': False, 'base': 'minimal', 'exec_ref': False, 'hashseed': 1},
+                        'ops': [a, gjob(probe_blocks, cls=cls)]})
     # the plasTeX manual (Doc/plastex.tex: 18 input files, ~100 output files) before and after other documents
     def mjob(rel, withdir=False):
         d = {'op': 'JOB', 'corpus': rel, 'cls': 'article', 'packages': [], 'blocks': [], 'cut': None,
